@@ -245,6 +245,28 @@ func (pl *planter) genArr(depth int) (interface{}, interface{}) {
 	}
 	hasVar := g.P(1, 2)
 	extras := g.Intn(3)
+	if hasVar && g.P(1, 6) {
+		// an inequality variable, numerically pre-bound, as the array's variable: every left-over
+		// number in the relation is a match; the bound itself is among the elements half the time
+		v := ineqVars[g.Intn(len(ineqVars))]
+		op, base := ineqBase(v)
+		_, used := pl.bs0[v]
+		_, usedBase := pl.sigma[base]
+		if !used && !usedBase && op != "" {
+			b := numbers[g.Intn(len(numbers))]
+			a := pl.related(op, b, true)
+			if !seen[Canon(a)] {
+				pl.bs0[v] = b
+				pl.sigma[base] = a
+				p = append(p, v)
+				addF(a)
+				if g.P(1, 2) {
+					addF(b)
+				}
+			}
+		}
+		hasVar = false
+	}
 	if hasVar {
 		optional := g.P(1, 3)
 		var v string
